@@ -154,15 +154,216 @@ def baseline_case(ctx, case):
             batch = TensorDict(batch, batch_size=[len(batch["extra"])])
         extra = batch["extra"]
         inst = batch.exclude("extra")
-        with torch.inference_mode():
-            ref = bl.policy(env.reset(inst.clone()), env, decode_type="greedy")["reward"]
+        ref, marg = _greedy(bl.policy, env, inst, with_margin=True)
         for i in range(extra.shape[0]):
+            n_seen += 1
+            if marg[i] < MARGIN:
+                ctx.ambiguous += 1
+                ctx.count("c17_near_tie_rows_skipped")
+                continue
             ctx.evaluation()
             ctx.count("c17_baseline_rows")
-            n_seen += 1
             if abs(float(extra[i]) - float(ref[i])) > 1e-4 * max(1.0, abs(float(ref[i]))):
                 ctx.violation(dict(sig, q="extra_vs_greedy", shuffle=shuffle), f"baseline value {float(extra[i])} attached to an instance != the baseline policy's greedy reward {float(ref[i])} on that instance", dict(N=N, bs=bs, bs_bl=bs_bl))
                 return
     if n_seen != N:
         ctx.violation(dict(sig, q="rows_lost"), f"{n_seen} rows read from a wrapped dataset of {N}", None)
     ctx.nontrivial_case(dict(c=case))
+
+
+MARGIN = 1e-4  # a row whose greedy decode has a top-2 logit gap below this may legitimately flip between batch layouts
+
+
+def _greedy(policy, env, inst, with_margin=False):
+    """greedy rewards of `policy` on the rows of `inst`; with_margin: also the smallest top-2 gap of the feasible logits
+    along each row's decode (rows decided by a near-tie are not comparable across batch compositions - C14's float guard)."""
+    from vlib.c14impl import min_margin
+    from vlib.taps import PolicyTap
+
+    policy.eval()
+    with torch.inference_mode():
+        if not with_margin:
+            return policy(env.reset(inst.clone()), env, decode_type="greedy")["reward"]
+        with PolicyTap(policy) as rec:
+            r = policy(env.reset(inst.clone()), env, decode_type="greedy")["reward"]
+        return r, [min_margin(rec, row=i) if rec.steps else 0.0 for i in range(r.shape[0])]
+
+
+def _check_batches(ctx, sig, env, wrapped, bs, shuffle, seed, ref_pol, bl, phase, limit=None):
+    """read `wrapped`; every row's extra must equal the greedy reward of ref_pol (the monitor's own frozen copy of the policy
+    the baseline was last built from) on that row; bl.policy must give the same."""
+    from torch.utils.data import DataLoader
+
+    g = torch.Generator().manual_seed(seed)
+    dl = DataLoader(wrapped, batch_size=bs, shuffle=shuffle, collate_fn=wrapped.collate_fn, generator=g if shuffle else None)
+    n = 0
+    for batch in dl:
+        if not isinstance(batch, TensorDict):
+            batch = TensorDict(batch, batch_size=[len(batch["extra"])])
+        extra = batch["extra"].reshape(-1)
+        inst = batch.exclude("extra")
+        ref, marg = _greedy(ref_pol, env, inst, with_margin=True)
+        ref = ref.reshape(-1)
+        ref_bl = _greedy(bl.policy, env, inst).reshape(-1)
+        for i in range(extra.shape[0]):
+            n += 1
+            if marg[i] < MARGIN:
+                ctx.ambiguous += 1
+                ctx.count("c17_near_tie_rows_skipped")
+                continue
+            ctx.evaluation()
+            ctx.count("c17_baseline_rows")
+            ctx.count("c17_history_rows")
+            tol = 1e-4 * max(1.0, abs(float(ref[i])))
+            if abs(float(extra[i]) - float(ref[i])) > tol:
+                ctx.violation(dict(sig, q="extra_vs_greedy", phase=phase), f"[{phase}] baseline value {float(extra[i])} attached to an instance != greedy reward {float(ref[i])} of the policy the baseline was built from", None)
+                return False
+            if abs(float(ref_bl[i]) - float(ref[i])) > tol:
+                ctx.violation(dict(sig, q="baseline_policy_moved", phase=phase), f"[{phase}] the baseline's frozen policy now gives {float(ref_bl[i])} on an instance, the policy it was built from gave {float(ref[i])}", None)
+                return False
+        if limit and n >= limit:
+            break
+    return True
+
+
+def history_case(ctx, case):
+    """wrap -> read -> the live policy takes optimizer steps -> read -> baseline replaced -> wrap the SAME dataset again -> read."""
+    import copy
+
+    from rl4co.models.rl.reinforce.baselines import RolloutBaseline, WarmupBaseline
+
+    N, bs_bl, bs, shuffle, seed = case["N"], case["bs_bl"], case["bs"], case["shuffle"], case["s"]
+    env, O, cfg = policies.env_for(case["env"], 6)
+    pol = policies.make("am", env, seed=seed % 5)
+    torch.manual_seed(seed)
+    bl = RolloutBaseline()
+    bl.setup(pol, env, batch_size=bs_bl, device="cpu", dataset_size=max(4, N // 2))
+    ref_pol = copy.deepcopy(pol)
+    wrapper = bl
+    if case.get("warmup"):
+        wrapper = WarmupBaseline(bl, n_epochs=1)
+        wrapper.alpha = 1.0
+    if case.get("dscls"):
+        from rl4co.data.dataset import FastTdDataset, TensorDictDatasetFastGeneration
+
+        ds = {"fast": FastTdDataset, "fastgen": TensorDictDatasetFastGeneration}[case["dscls"]](env.generator(batch_size=[N]))
+    else:
+        ds = env.dataset([N])
+    sig = dict(q0="baseline_history", env=case["env"], dscls=case.get("dscls", "default"))
+    wrapped = wrapper.wrap_dataset(ds, env, batch_size=bs_bl, device="cpu")
+    ctx.count("c17_wrap_calls")
+    if not _check_batches(ctx, sig, env, wrapped, bs, shuffle, seed, ref_pol, bl, "after_wrap", limit=max(bs, N // 2)):
+        return
+    # the live policy trains on: real optimizer steps on a REINFORCE loss
+    opt = torch.optim.Adam(pol.parameters(), lr=5e-3)
+    for k in range(case.get("opt_steps", 2)):
+        pol.train()
+        out = pol(env.reset(env.generator(batch_size=[8])), env, decode_type="sampling")
+        loss = -((out["reward"] - out["reward"].mean()) * out["log_likelihood"]).mean()
+        opt.zero_grad()
+        loss.backward()
+        opt.step()
+    ctx.count("c17_optimizer_steps", case.get("opt_steps", 2))
+    if not _check_batches(ctx, sig, env, wrapped, bs, shuffle, seed + 1, ref_pol, bl, "after_optimizer_steps"):
+        return
+    # the baseline is replaced by the trained policy (what epoch_callback does when the candidate wins) and the same
+    # training set is wrapped again
+    bl._update_policy(pol, env, batch_size=bs_bl, device="cpu", dataset_size=max(4, N // 2))
+    ref_pol = copy.deepcopy(pol)
+    wrapped2 = wrapper.wrap_dataset(ds, env, batch_size=bs_bl, device="cpu")
+    ctx.count("c17_wrap_calls")
+    ctx.count("c17_rewraps")
+    if not _check_batches(ctx, sig, env, wrapped2, bs, shuffle, seed + 2, ref_pol, bl, "after_rewrap"):
+        return
+    ctx.nontrivial_case(dict(c=case))
+    ctx.sample(dict(case=case))
+
+
+def fit_case(ctx, case):
+    """A real RL4COTrainer.fit of REINFORCE with the rollout baseline (optionally inside warm-up): every training batch that
+    carries 'extra' is checked against the greedy reward of the baseline's policy AND of the monitor's own frozen copy taken
+    when the baseline was last rebuilt (hook on RolloutBaseline._update_policy)."""
+    import copy
+    import os
+    import shutil
+    import tempfile
+
+    import rl4co.models as M
+    from rl4co.models.rl.reinforce.baselines import RolloutBaseline
+    from rl4co.utils.trainer import RL4COTrainer
+
+    seed = case["s"]
+    env, O, cfg = policies.env_for(case["env"], 8)
+    torch.manual_seed(seed)
+    pol = policies.make("am", env, seed=seed % 5)
+    bl_name = "rollout"
+    kw = dict(batch_size=case["bs"], train_data_size=case["N"], val_data_size=4, test_data_size=4, optimizer_kwargs=dict(lr=case.get("lr", 3e-3)), shuffle_train_dataloader=case["shuffle"])
+    if case.get("warmup"):
+        kw["baseline_kwargs"] = dict(n_epochs=case["warmup"])
+        bl_name = "rollout"
+        model = M.AttentionModel(env, pol, baseline=bl_name, **kw) if False else M.REINFORCE(env, pol, baseline=bl_name, **kw)
+    else:
+        model = M.REINFORCE(env, pol, baseline=bl_name, **kw)
+    sig = dict(q0="baseline_fit", env=case["env"], warmup=bool(case.get("warmup")))
+    state = dict(ref=None, updates=0, batches=0, rows=0, bad=None, skipped=0)
+    inner = model.baseline.baseline if hasattr(model.baseline, "baseline") and isinstance(getattr(model.baseline, "baseline", None), RolloutBaseline) else model.baseline
+    if not isinstance(inner, RolloutBaseline):
+        ctx.note(f"fit_case: baseline is {type(inner).__name__}")
+        return
+    orig_update = inner._update_policy
+
+    def update(policy, *a, **k):
+        state["ref"] = copy.deepcopy(policy)
+        state["updates"] += 1
+        return orig_update(policy, *a, **k)
+
+    inner._update_policy = update
+    orig_step = model.shared_step
+
+    def shared_step(batch, batch_idx, phase, *a, **k):
+        if phase == "train" and "extra" in batch.keys() and state["bad"] is None and state["ref"] is not None:
+            was_training = model.policy.training
+            extra = batch["extra"].reshape(-1)
+            inst = batch.exclude("extra")
+            ref, marg = _greedy(state["ref"], env, inst, with_margin=True)
+            ref = ref.reshape(-1)
+            ref_bl = _greedy(inner.policy, env, inst).reshape(-1)
+            state["batches"] += 1
+            for i in range(extra.shape[0]):
+                if marg[i] < MARGIN:
+                    state["skipped"] += 1
+                    continue
+                state["rows"] += 1
+                tol = 1e-4 * max(1.0, abs(float(ref[i])))
+                if abs(float(extra[i]) - float(ref[i])) > tol:
+                    state["bad"] = ("extra_vs_greedy", f"epoch {model.current_epoch} batch {batch_idx}: attached {float(extra[i])} vs greedy reward {float(ref[i])} of the policy the baseline was built from")
+                    break
+                if abs(float(ref_bl[i]) - float(ref[i])) > tol:
+                    state["bad"] = ("baseline_policy_moved", f"epoch {model.current_epoch} batch {batch_idx}: baseline policy now gives {float(ref_bl[i])}, the policy it was built from gave {float(ref[i])}")
+                    break
+            model.policy.train(was_training)
+        return orig_step(batch, batch_idx, phase, *a, **k)
+
+    model.shared_step = shared_step
+    d = tempfile.mkdtemp(prefix="verif-c17-", dir=os.environ.get("VERIF_SCRATCH", None))
+    cwd = os.getcwd()
+    try:
+        os.chdir(d)
+        trainer = RL4COTrainer(matmul_precision="highest", max_epochs=case.get("epochs", 3), accelerator="cpu", devices=1, logger=False, enable_checkpointing=False, enable_progress_bar=False, enable_model_summary=False, precision="32-true", default_root_dir=d)
+        trainer.fit(model)
+    finally:
+        os.chdir(cwd)
+        shutil.rmtree(d, ignore_errors=True)
+    ctx.count("c17_fit_runs")
+    ctx.count("c17_fit_batches_with_extra", state["batches"])
+    ctx.count("c17_baseline_rows", state["rows"])
+    ctx.count("c17_fit_baseline_rebuilds", state["updates"])
+    ctx.count("c17_near_tie_rows_skipped", state["skipped"])
+    ctx.ambiguous += state["skipped"]
+    ctx.evaluation(max(1, state["rows"]))
+    if state["bad"]:
+        ctx.violation(dict(sig, q=state["bad"][0], phase="fit"), state["bad"][1], None)
+        return
+    if state["batches"]:
+        ctx.nontrivial_case(dict(c=case))
+        ctx.sample(dict(case=case, batches_with_extra=state["batches"], rows=state["rows"], baseline_rebuilds=state["updates"]))
